@@ -254,7 +254,9 @@ func shopcartCommon(iface distsys.ArchetypeInterface, st *Store, knowVar string,
 					return "add-only-history"
 				}
 				if !qi.Equal(qj) {
-					sh := shape(func(e tla.Value) bool { return tla.ModuleInSymbol(e, qi).AsBool() != tla.ModuleInSymbol(e, qj).AsBool() })
+					sh := shape(func(e tla.Value) bool {
+						return tla.ModuleInSymbol(e, qi).AsBool() != tla.ModuleInSymbol(e, qj).AsBool()
+					})
 					vs = append(vs, Violation{"C16:shopcart:equal-knowledge-unequal-read:" + sh, fmt.Sprintf("nodes %d and %d know %s but read %s and %s (states %s / %s) (step %d %s)", i, j, kn.ApplyFunction(N(i)).String(), qi.String(), qj.String(), ci.String(), cj.String(), step.N, step.Label)})
 				} else if !ci.Equal(cj) {
 					sh := shape(func(e tla.Value) bool {
